@@ -1338,3 +1338,60 @@ SPECS["C02"]["theorems"] += ["Woodpile.Props.C02A.find_stuff_sequence_spec"]
 SPECS["C02"]["level_text"] += (" Props/C02A (track apigaps): the public hcobs::find_stuff_sequence is exercised on its own (op `find`: FE/FD runs, a pair at every "
     "position incl. the last two bytes) against Spec.findStuff, characterised exactly (first occurrence / none). The production Encoder is also fed through its "
     "ZeroCopySink impl behind `dyn` (methods S / T of hcobs_enc, model = the borrow / copy methods).")
+
+# ---- track c10enc (claim-audit gaps 2, 4, 11): C10 / C05 on the real codec call sequences, drop histories ----
+SPECS["C10"]["lean_modules"] += ["Woodpile.Props.C10H"]
+SPECS["C10"]["theorems"] += [
+    "Woodpile.Props.C10H.enc_streaming_footprint",
+    "Woodpile.Props.C10H.enc_streaming_footprint_prod",
+    "Woodpile.Props.C10H.full_drain_is_quiescent",
+    "Woodpile.Props.C10H.dec_streaming_footprint",
+    "Woodpile.Props.C10H.enc_streaming_liveBytes_partial",
+    "Woodpile.Props.C10H.enc_streaming_liveBytes_prod_partial",
+    "Woodpile.Props.C10H.dec_streaming_liveBytes_partial",
+    "Woodpile.Props.C10H.enc_streaming_footprint_small_partial",
+    "Woodpile.Props.C10H.enc_streaming_liveBytes_small_partial",
+    "Woodpile.Props.C10H.enc_streaming_liveBytes_small_prod_partial",
+    "Woodpile.Props.C10H.drop_history_releases",
+    "Woodpile.Props.C10H.drop_perm_releases",
+    "Woodpile.Props.C10H.handles_spec",
+    "Woodpile.Props.C10H.drop_step_live_subset",
+    "Woodpile.Props.C10H.enc_drop_releases",
+    "Woodpile.Props.C10H.dec_drop_releases",
+]
+SPECS["C10"]["level_text"] += (' Props/C10H (track c10enc): the footprint on the REAL codec call sequences (EncWorld.encPrefixA / decRunA: Encoder::new resp. '
+    'Decoder::new followed by ANY calls - encode / encode_copy of a piece, encode_read with any scripted reader, consume / advance_slices of any amount; '
+    'any policy, tuning, parameters). The codec\'s world holds one iovec and nothing else, so the live chunks are the cache\'s chunk and the anchor deque\'s; '
+    'ENCODER (enc_streaming_footprint, all input methods): at every quiescent point (stableCount = some 0: nothing consumable, what a full drain leaves - '
+    'full_drain_is_quiescent) the anchor deque has at most 3*(cur+mid)+2 anchors, cur+mid < the HCOBS chunk limit, hence at most 3*max(maxInit,maxSub) live '
+    'chunks (production 192024) however much was streamed. The constant is NOT small and cannot be for anchored input: pinned `example`s stream 1-byte short '
+    'reads of encode_read(count = chunk size) and pin one arena chunk per byte of the open HCOBS chunk. For BORROWED/COPIED input the potential argument of '
+    'C10.streaming_footprint goes through on the real run (Proofs/EncPotential; enc_streaming_footprint_small_partial): at most 2*cur/m0+2 anchors, '
+    '2*max(maxInit,maxSub)/m0+3 live chunks at every quiescent point - production 34 chunks and (enc_streaming_liveBytes_small_prod_partial) 34 MiB. DECODER (dec_streaming_footprint, all input methods): '
+    'nothing is ever pending; after consume(k >= #slices) no slice and no anchor is left, only the cache\'s chunk can be live. Live BYTES (liveBytes = sum of the '
+    'GReach capacity ghost over the live chunks): enc_/dec_streaming_liveBytes_partial - `_partial` = borrowed/copied input only: there the codec\'s world is a '
+    'WOp history whose ghost is <= S on every chunk ever allocated (TuningBounds; production S = 2^20), so liveBytes <= #live * S (<= 3*max*S at encoder '
+    'quiescent points, <= S after the decoder\'s full drain); the anchored route (push of sub-slices, then ONE push_anchor) is not a WOp history, so no GReach '
+    'ghost exists for it. DROP HISTORIES (drop_history_releases, drop_perm_releases, handles_spec, drop_step_live_subset): from any world, for every list of '
+    'handles enumerating the live objects (iovecs, clones, taken iovecs, detached arenas, detached anchored slices) exactly once - every permutation of '
+    'World.handles - the corresponding drop operations (drop / dropArena / sDrop, one World.step each) all succeed and end with no object, no live chunk, '
+    'liveBytes = 0, the live set only shrinking on the way; Encoder / Decoder / StreamReader are not world objects of their own: dropping one is dropping its '
+    'iovec (enc_drop_releases, dec_drop_releases after any run, all input methods).')
+SPECS["C05"]["lean_modules"] += ["Woodpile.Props.C05H"]
+SPECS["C05"]["theorems"] += [
+    "Woodpile.Props.C05H.dec_run_arenaInv",
+    "Woodpile.Props.C05H.dec_run_is_wrun",
+    "Woodpile.Props.C05H.dec_exposed_live",
+    "Woodpile.Props.C05H.dec_below_bump",
+    "Woodpile.Props.C05H.dec_run_prefix_world",
+    "Woodpile.Props.C05H.enc_anchored_shape",
+    "Woodpile.Props.C05H.dec_anchored_shape",
+]
+SPECS["C05"]["level_text"] += (' Props/C05H (track c10enc): DECODER runs (decode / decode_copy, any drain schedule, whatever the verdict) preserve every world '
+    'predicate closed under one emit / one lent buffer / one drain (Proofs/DecGlue), so WorldInv and ArenaInv hold at every call boundary '
+    '(dec_run_arenaInv, dec_run_prefix_world) and the decoder\'s world is literally a WOp history (dec_run_is_wrun: Reachable), with exposed_live / below_bump '
+    'restated for it. For ALL input methods (anchored encode_read / decode_read included) enc_/dec_anchored_shape give the shape of the codec\'s world (one '
+    'iovec, no detached object, anchor counts sum to the number of slices, exactly one / no placeholder pending); the GUARD half of WorldInv and ArenaInv along '
+    'anchored calls are NOT proved (the file header states the invariant that is missing), WorldInv.headPos is FALSE along decoder runs with anchored input '
+    '(pinned example: decode_read of header-only bytes leaves a zero-count anchor on an empty deque until the next consume), and StreamChunker / StreamReader '
+    'have no World-level model yet (what is needed is stated at the end of Props/C05H).')
